@@ -158,6 +158,14 @@ class PipeScenario(Scenario):
         if name == "timed_window":
             return up.timed_window(a[0])
         if name == "timed_window_unique":
+            if a[1] == "failkey":
+                # the key function raises for element 2 (and is the identity otherwise)
+                def key(x):
+                    if x == 2:
+                        scen.log.append(("gate-failed", "key:2", scen.loop.time(), 2))
+                        raise Injected("key(2)")
+                    return x
+                return up.timed_window_unique(a[0], key=key, keep=a[2])
             if a[1] == "idx0":
                 # a key that is not callable: taken by indexing, on (parity, x) pairs made and unmade around the node
                 return up.map(lambda x: (x % 2, x)).timed_window_unique(a[0], key=0, keep=a[2]).map(lambda b: tuple(q[1] for q in b))
